@@ -69,7 +69,7 @@ def gen_cases(tier, seed):
         yield {"kind": "fit", "seed": r.randrange(1 << 30), "order": i % 4, "weights": ["sparse", "dense", "sparse-with-first", "single", "decades"][(i // 4) % 5], "kernel": "shipped" if i % 5 else "user", "entry": ["raw", "isotherm"][i % 2]}
     for i in range(18 if tier == "quick" else 300):
         yield {"kind": "limits", "seed": r.randrange(1 << 30), "narrow": [None, 1, None, 2, None, 3][i % 6]}
-    for i in range(6 if tier == "quick" else 200):
+    for i in range(24 if tier == "quick" else 400):
         yield {"kind": "range", "seed": r.randrange(1 << 30)}
     for i in range(4 if tier == "quick" else 100):
         yield {"kind": "two_kernels", "seed": r.randrange(1 << 30)}
@@ -143,7 +143,7 @@ def _weights(r, nw, kind):
 
 
 def _grid(r, k, n=None):
-    n = n or r.randint(20, 150)
+    n = n or (r.randint(20, 150) if r.random() < 0.65 else r.randint(6, 40))  # (a third of the grids are short: fewer points than unknowns)
     lo, hi = k["pmin"] * 1.001, k["pmax"] * 0.999
     p = numpy.exp(numpy.linspace(math.log(lo), math.log(hi), n)) if r.random() < 0.7 else numpy.linspace(lo, hi, n)
     return p
@@ -177,10 +177,7 @@ def _run_fit(case, ctx):
     ctx.case(["fit", dg])
     from pygaps.utilities.exceptions import CalculationError
     if res[0] != "ok":
-        if isinstance(res[1], CalculationError) and "Minimization" in str(res[1]):
-            ctx.count("refusals", "minimisation-failed")
-            ctx.trivial += 1
-            return
+        # (a refusal is not a match either: the data are an exact combination inside the kernel's range)
         ctx.violation("psd_dft/raises/%s" % type(res[1]).__name__, "kernel fitting raised on an exact kernel combination inside the kernel range", exc=res[1], kernel=case["kernel"], order=order)
         return
     if case["entry"] == "isotherm":
@@ -294,7 +291,10 @@ def _run_range(case, ctx):
     which = r.choice(["above", "negative"])
     p2 = p.copy()
     if which == "above":
-        p2[-1] = k["pmax"] * (1 + r.uniform(1e-4, 0.5))
+        # by anything from one unit in the last place to 50 %
+        excess = r.choice(["ulp", 1e-12, 1e-9, 1e-7, 3e-6, 9e-6, r.uniform(1e-4, 0.5), r.uniform(1e-4, 0.5)])
+        p2[-1] = float(numpy.nextafter(k["pmax"], 2.0)) if excess == "ulp" else k["pmax"] * (1 + excess)
+        ctx.count("range", "above by %s" % (excess if isinstance(excess, str) else "1e%d" % math.floor(math.log10(excess))))
     else:
         p2[0] = -abs(p2[0])
     res = _call(pk.psd_dft_kernel_fit, p2, n, path, 2)
